@@ -42,15 +42,20 @@ CLAIM = dict(
          'the translator harness/skeleton_c09.py is trusted (classification of NumPy / SciPy / builtin calls as fresh / view '
          '/ in-place, overwrite_a/b operands written and handed back, rules 1-7 of its docstring; rule 6: a callback is an '
          'object, writes none of its arguments, and what it returns may reference its arguments or its own closure; rule 2: '
-         'parameters that no Args entry documents stay at their default; rule 5: loops over range(1, d) / Y[1:] run at least '
-         'once, d >= 2). It is validated numerically on every run by the dynamic footprint of all 96 exported functions '
+         'parameters that no Args entry documents stay at their default -- e.g. optima_tt_beam(to_orth=False), which rescales '
+         'the end core of its argument in place, is outside the property because to_orth is not in the Args; `flag is False / '
+         'True` tests on a parameter are left undecided because 0 / np.bool_ are equally falsy; rule 5 is withdrawn: every loop '
+         'may run zero times, so d = 1, q = 1, single samples and empty lists are covered; rule 7: name bound to np.where / a '
+         'mask, or an entry X[..., k], is an advanced index (copy); rule 8: a basic-index view of a core of a documented '
+         'TT-tensor (3-D numeric array) has a known number of dimensions, an index fixing all of them yields a scalar). It is validated numerically on every run by the dynamic footprint of all 96 exported functions '
          '(byte snapshots, np.shares_memory, container identity, write-after-return probes; C / F / strided layouts, lists '
          'vs arrays, callbacks returning a view of their argument or of their own buffer): every observed write / alias must '
          'be allowed by the exception table and predicted by the skeleton; in addition every table entry the translation relied '
          'on to call a library routine FRESH (new memory, operands untouched) is called directly on C / Fortran / strided / '
          'size-1 operands and checked with np.shares_memory; and every recipe is re-run with its option / index / point '
          'arguments given as C-contiguous int64 / float64 ndarrays (so that asanyarray / ascontiguousarray / grid_prep_opt(s) '
-         'are the identity), scalar options written out as arrays, and batches reduced to a single point. Result objects that a function also stores into '
+         'are the identity), scalar options written out as arrays, batches reduced to a single point or a single row, the whole '
+         'call reduced to one dimension (d = 1), and boolean flags passed as 0 / 1, np.bool_ and None. Result objects that a function also stores into '
          'the info / cache dictionaries are covered by the exception (info / cache may reach them). Exported classes (ANOVA, '
          'ANOVA_func) and underscore helpers are analysed as callees only. Heap model: a view / slice / reshape of an array '
          'is the same object as its base (conservative: two disjoint slices of one buffer count as aliased).',
@@ -65,7 +70,7 @@ TRUSTED = ['Coq 8.16.1 kernel + vm_compute (closed boolean check of the regenera
            'user callbacks write none of their arguments; their results reference only what is reachable from their '
            'arguments or from the callback object itself (rule 6, ECallback = callspec with esc = all operands)',
            'mutable default arguments (info={}, cache={}) are treated as the argument they stand for']
-ASSUMPTIONS = ['d >= 2 (loops over range(1, d) and Y[1:] run at least once)',
+ASSUMPTIONS = ['none on the number of dimensions: d >= 1, every loop may run zero times (the former rule 5 is withdrawn)',
                'documented argument combinations only: parameters no Args entry documents stay at their defaults (rule 2); '
                'for the five exported functions without an Args section (core_dot, core_dot_inv, core_dot_maxvol, '
                'core_qr_rand, func_diff_matrix_apply) the boolean flags are ranged over, the other defaults are kept',
@@ -479,6 +484,29 @@ def recipes(tn, E, only=None):
         add('orthogonalize_right', tag, A_, len(A_) - 1)
         add('add_many', tag, [A_, B_, A_])
         add('optima_tt', tag, A_)
+    # shapes that make a loop run zero times (besides d = 1 / m = 1, which the derived modes 'd1' / 'm1' produce for every recipe)
+    Y1d = [E.arr(rs.randint(-3, 4, size=(1, 4, 1)).astype(float) + 0.5)]
+    add('full', 'd=1', Y1d)
+    add('copy', 'd=1', Y1d)
+    add('get', 'd=1', Y1d, E.idx([2]))
+    add('get_many', 'd=1, m=1', Y1d, E.idx([[2]]))
+    add('svd', 'd=1 (vector)', E.full([4]))
+    add('tt_to_qtt', 'q=1 (n=2)', E.tt([2, 2], 2, 40))
+    add('qtt_to_tt', 'q=1', E.tt([2, 2], 2, 41), 1)
+    add('ind_qtt_to_tt', 'q=1', E.idx([1, 0, 1]), 1)
+    add('ind_tt_to_qtt', 'q=1 (n=2)', E.idx([1, 0, 1]), 2)
+    add('optima_qtt', 'q=1 (n=2)', E.tt([2, 2, 2], 2, 42), k=3)
+    add('full_matrix', 'q=1', E.tt([4], 1, 43))
+    add('add_many', 'one tensor', [Y])
+    add('outer_many', 'one tensor', [Y])
+    add('const', 'empty zero list', E.idx([3, 4, 3]), 2., I_zero=[], i_non_zero=None)
+    add('optima_tt_beam', 'k=1', Y, 1)
+    add('optima_tt', 'k=1', Y, k=1)
+    add('sample', 'm=1 explicit', Yp, 1, seed=2)
+    add('sample_lhs', 'm=1', E.idx([3, 4, 3]), 1, seed=1)
+    add('sample_tt', 'r=1', E.idx([3, 4, 3]), 1, seed=1)
+    add('cross', 'nswp=1', f3, E.tt(n3, 1, 10), nswp=1, info={})
+    add('als', 'nswp=1', E.arr(Iall), E.arr(yall), E.tt(n3, 1, 8), nswp=1, info={})
     add('svd', '2 x 1', E.full([2, 1]))
     add('svd', '1 x 1 x 1', E.full([1, 1, 1]))
     add('svd', '1 x 3', E.full([1, 3]))
@@ -507,13 +535,28 @@ def predicted(g, name, bound):
     if not rs:
         return None
 
+    try:
+        src = inspect.getsource(getattr(sys.modules['teneva'], name))
+    except Exception:
+        src = ''
+
     def compatible(r):
         for k, v in r['flags'].items():
-            if k not in bound or bound[k] is None and v in ('True', 'False'):
+            if k not in bound:
                 continue
-            if callable(bound[k]) and v == '<lambda-default>':
+            b = bound[k]
+            if callable(b) and v == '<lambda-default>':
                 continue
-            if str(bound[k]) != v:
+            if v in ('True', 'False'):
+                # a flag is compared by truthiness: False, 0, np.bool_(False) select the False variant; None selects it too
+                # unless the function tests `flag is None` itself (func_get(skip_out=None) decides inside)
+                if b is None and re.search(rf'\b{k} is (not )?None', src):
+                    continue
+                if b is None or isinstance(b, (bool, np.bool_, int, np.integer)):
+                    if str(bool(b)) != v:
+                        return False
+                    continue
+            if str(b) != v:
                 return False
         return True
     sel = [r for r in rs if compatible(r)] or rs
@@ -644,7 +687,13 @@ def run_case(tn, g, name, label, args, kw, probes=True, tolerant=False):
 # optionally with batch arguments (points / multi-indices) reduced to a single point.  Calls that raise are tolerated (the
 # arguments are compared all the same).
 SINGLE_PARAMS = {'X', 'I', 'i', 'x', 'X_trn', 'I_trn', 'X_vld', 'I_vld', 'I_data', 'X_data', 'I_qtt', 'I_tt'}
-DERIVED_MODES = [(dt, arr, single) for single in (False, True) for arr in (False, True) for dt in ('i', 'f')]
+DERIVED_MODES = [(dt, arr, single) for single in (False, True) for arr in (False, True) for dt in ('i', 'f')] + \
+    [('d1', False, False), ('m1', False, False), ('flags', 'int', False), ('flags', 'np', False), ('flags', 'none', False)]
+# 'flags': every boolean flag of the call (passed or left at its default) in another form of the same truthiness: 0 / 1,
+#          np.bool_(False) / np.bool_(True), and None for a False flag (tolerated if the function rejects it).
+# 'd1': the whole call reduced to ONE dimension (every TT-tensor cut to its first core, shape (1, n, 1); every length-d option
+#       / index to its first entry; lists of d things to their first element): loops over range(1, d) / Y[1:] run zero times;
+# 'm1': batches of points / multi-indices (and the value vectors of the same length) cut to a single row, kept 2-D.
 
 
 def _is_num(x):
@@ -687,8 +736,110 @@ def _dimension(bound):
     return int(d) if _is_num(d) else None
 
 
+def _is_tt(v):
+    return isinstance(v, list) and len(v) > 0 and all(isinstance(x, np.ndarray) and x.ndim == 3 for x in v)
+
+
+def _shrink(tn, name, args, kw, mode):
+    """the 'd1' / 'm1' forms of a call"""
+    f = getattr(tn, name)
+    try:
+        sig = inspect.signature(f)
+        ba = sig.bind(*args, **kw)
+    except Exception:
+        return None
+    bound = dict(ba.arguments)
+    d = _dimension(bound)
+    m = None
+    for k, v in bound.items():
+        if k in SINGLE_PARAMS and isinstance(v, (np.ndarray, list)) and not _is_tt(v):
+            a = np.asarray(v)
+            if a.dtype != object and a.ndim == 2:
+                m = a.shape[0]
+    signature = []
+
+    def d1(k, v):
+        if _is_tt(v):
+            return [np.array(v[0][:1, :, :1], order='C')]
+        if isinstance(v, list) and v and all(_is_tt(x) or _is_num(x) for x in v) and any(_is_tt(x) for x in v):
+            return [d1(k, x) for x in v]                      # list of TT-tensors (add_many, outer_many, cross_act)
+        if isinstance(v, (list, tuple)) and d and len(v) == d and all(isinstance(x, np.ndarray) for x in v):
+            return [v[0]]                                      # one array per mode (P of mean / interface)
+        if isinstance(v, np.ndarray) and v.dtype != object and v.ndim >= 3 and d and v.ndim == d:
+            return np.array(v[(slice(None),) + (0,) * (v.ndim - 1)], order='C')      # dense tensor -> first fibre
+        if isinstance(v, np.ndarray) or _numeric_nested(v):
+            a = np.asarray(v)
+            if a.dtype == object or not d:
+                return v
+            out = None
+            if a.ndim == 1 and a.shape[0] == d:
+                out = a[:1]
+            elif a.ndim == 1 and a.shape[0] == d + 1 and k == 'r':
+                out = a[[0, -1]]
+            elif a.ndim == 2 and a.shape[1] == d and k in SINGLE_PARAMS | {'I_zero'}:
+                out = a[:, :1]
+            if out is None:
+                return v
+            out = np.array(out, order='C')
+            return out if isinstance(v, np.ndarray) else out.tolist()
+        return v
+
+    def m1(k, v):
+        if _is_tt(v) or m is None:
+            return v
+        if isinstance(v, np.ndarray) or _numeric_nested(v):
+            a = np.asarray(v)
+            if a.dtype != object and a.ndim in (1, 2) and a.shape[0] == m and (a.ndim == 1 or k in SINGLE_PARAMS):
+                out = np.array(a[:1], order='C')
+                return out if isinstance(v, np.ndarray) else out.tolist()
+        return v
+    changed = False
+    for k in list(ba.arguments):
+        par = sig.parameters[k]
+        if par.kind in (par.VAR_POSITIONAL, par.VAR_KEYWORD):
+            continue
+        nv = (d1 if mode[0] == 'd1' else m1)(k, ba.arguments[k])
+        if nv is not ba.arguments[k]:
+            changed = True
+            signature.append((k, mode[0]))
+        ba.arguments[k] = nv
+    if not changed:
+        return None
+    return list(ba.args), dict(ba.kwargs), tuple(signature)
+
+
+def _reflag(tn, name, args, kw, mode):
+    f = getattr(tn, name)
+    try:
+        sig = inspect.signature(f)
+        ba = sig.bind(*args, **kw)
+        ba.apply_defaults()
+    except Exception:
+        return None
+    signature = []
+    for k, v in list(ba.arguments.items()):
+        if isinstance(v, (bool, np.bool_)) and not k.startswith('_'):
+            if mode[1] == 'int':
+                nv = int(v)
+            elif mode[1] == 'np':
+                nv = np.bool_(v)
+            else:
+                if v:
+                    continue
+                nv = None
+            ba.arguments[k] = nv
+            signature.append((k, 'flags', mode[1]))
+    if not signature:
+        return None
+    return list(ba.args), dict(ba.kwargs), tuple(signature)
+
+
 def derive(tn, g, name, args, kw, mode):
     """(args', kw', signature) of the derived call, or None when the function signature does not bind"""
+    if mode[0] in ('d1', 'm1'):
+        return _shrink(tn, name, args, kw, mode)
+    if mode[0] == 'flags':
+        return _reflag(tn, name, args, kw, mode)
     dt, arrayify, single = mode
     f = getattr(tn, name)
     try:
@@ -738,6 +889,8 @@ def _same_as_base(sig, args, kw, tn, name):
     ba = inspect.signature(getattr(tn, name)).bind(*args, **kw).arguments
     for x in sig:
         v = ba.get(x[0])
+        if len(x) >= 2 and x[1] in ('d1', 'm1', 'flags'):
+            return False
         if len(x) == 4:
             if not (isinstance(v, np.ndarray) and str(v.dtype) == x[1] and v.shape == x[2] and v.flags['C_CONTIGUOUS']):
                 return False
@@ -752,6 +905,12 @@ def _same_as_base(sig, args, kw, tn, name):
 
 
 def mode_label(mode):
+    if mode[0] == 'd1':
+        return 'reduced to one dimension (d = 1)'
+    if mode[0] == 'm1':
+        return 'batch of a single sample (m = 1)'
+    if mode[0] == 'flags':
+        return 'boolean flags as ' + {'int': '0 / 1', 'np': 'np.bool_', 'none': 'None (for False)'}[mode[1]]
     dt, arrayify, single = mode
     return ('exact ' + ('int64' if dt == 'i' else 'float64') + ' C arrays' + (', scalar options as arrays' if arrayify else '')
             + (', single point' if single else ''))
@@ -791,6 +950,7 @@ def footprint(R, ctx, names=None, seeds=(1,), probes=True, derived=True):
     exported = sorted(nm for nm, (what, q) in g.pkg.exports.items())
     public = [nm for nm, (what, q) in sorted(g.pkg.exports.items()) if what == 'func' and not nm.startswith('_')]
     fails, ncalls, recipe_errors, covered = [], 0, [], set()
+    shr = {}                # ('d1' | 'm1', function) -> outcomes of the shrunk calls
     exact_seen = set()      # (function, parameter, dtype) called with a C-contiguous ndarray of that dtype
     dist = dict(layouts={}, functions=0)
     skipped = {}
@@ -830,7 +990,7 @@ def footprint(R, ctx, names=None, seeds=(1,), probes=True, derived=True):
                     for v in viol:
                         v['input'] = dict(function=name, case=label, layout=layout, index_args_as_lists=aslist, seed=seed)
                         (recipe_errors if v.get('recipe_error') else fails).append(v)
-                    if layout != 'C' or aslist or not derived:
+                    if layout != 'C' or aslist or not derived or (seed != seeds[0] and not ctx.get('thorough')):
                         continue
                     # identity-conversion family (see above)
                     dv0 = derive(tn, g, name, args, kw, DERIVED_MODES[0])
@@ -856,6 +1016,8 @@ def footprint(R, ctx, names=None, seeds=(1,), probes=True, derived=True):
                         viol, inf = run_case(tn, g, name, dlabel, dv[0], dv[1], probes, tolerant=True)
                         ncalls += 1
                         dist['derived'] = dist.get('derived', 0) + 1
+                        if mode[0] in ('d1', 'm1'):
+                            shr.setdefault((mode[0], name), []).append(inf.get('raised') or 'ok')
                         if inf.get('raised'):
                             dist['derived_raised'] = dist.get('derived_raised', 0) + 1
                         else:
@@ -869,6 +1031,10 @@ def footprint(R, ctx, names=None, seeds=(1,), probes=True, derived=True):
                                               index_args_as_lists=aslist, seed=seed)
                             (recipe_errors if v.get('recipe_error') else fails).append(v)
     dist['functions'] = len(covered)
+    for tag in ('d1', 'm1'):
+        dist[tag + '_functions_run'] = sorted(nm for (t, nm), v in shr.items() if t == tag and 'ok' in v)
+        dist[tag + '_functions_every_call_raised'] = sorted(f'{nm}: {sorted(set(v))}' for (t, nm), v in shr.items()
+                                                            if t == tag and 'ok' not in v)
     sites = conversion_sites(g)
     dist['conversion_sites'] = len(sites)
     dist['conversion_sites_not_reached_with_an_exact_array'] = sorted(
